@@ -183,9 +183,16 @@ KINDS = {"gen": k_gen, "find_vertices": k_find_vertices}
 def k_arith(p):
     """C15: one call of a big-number helper vs Python int arithmetic."""
     import dsw
+    import sys
+    lim = sys.get_int_max_str_digits() if hasattr(sys, "get_int_max_str_digits") else 0
     op, a, b = p["op"], p["number"], p["base"]
     f = {"add": dsw.calculus_addition, "sub": dsw.calculus_subtraction, "mul": dsw.calculus_multiplication, "div": dsw.calculus_division}[op]
-    r, ex = call(f, a, b)
+    try:
+        r, ex = f(a, b), None           # the call itself runs under the interpreter's default limits
+    except BaseException as e_:          # RecursionError is not an Exception subclass issue, but keep every failure
+        r, ex = None, type(e_).__name__ + ": " + str(e_)[:120]
+    if hasattr(sys, "set_int_max_str_digits"):
+        sys.set_int_max_str_digits(0)    # the oracle needs unlimited conversions
     A, B = int(a), int(b)
     if op == "sub" and A < B:
         return False, "negative result: outside the property"
@@ -291,6 +298,11 @@ def k_succ(p):
         b = v in [int(x) for x in dsw.obtain_latters(u, k)]
         if a != b:
             return True, "u=%d in formers(v=%d) is %s but v in latters(u) is %s" % (u, v, a, b)
+    if p.get("unordered_map"):
+        lm = {u: [succ(u, j, k) for j in (3, 1, 2, 0)] for u in range(N)}
+        back, exb = call(dsw.latter_map_to_accessor, lm, k)
+        if exb or back.tolist() != [[succ(u, j, k) for j in range(4)] for u in range(N)]:
+            return True, "latter map with unordered successor lists converts to wrong columns (%s)" % exb
     if p.get("complete"):
         acc = dsw.get_complete_accessor(k)
         if p.get("mutate_between"):
@@ -423,9 +435,13 @@ def k_shuffles(p):
     for i, row in enumerate(t1.tolist()):
         if sorted(row) != [0, 1, 2, 3]:
             return True, "row %d = %s is not a permutation of 0..3" % (i, row)
+    snap = t1.copy()
     np.random.seed(999)
     np.random.random(7)
     t2, ex = call(dsw.create_random_shuffles, k, seed)
+    if (t1 != snap).any():
+        return True, "the table returned by the first call was rewritten by the second call"
+    t1 = snap
     if seed is not None and (ex is not None or (t1 != t2).any()):
         return True, "same seed %r gave different tables from different global random states" % (seed,)
     t3, ex = call(dsw.create_random_shuffles, k, seed, True)
@@ -448,8 +464,11 @@ def k_e2e(p):
     k, t = int(p["k"]), int(p["t"])
     if p.get("config") is not None:
         c = p["config"]
+        call(dsw.find_vertices, k, dsw.LocalBioFilter(observed_length=k, max_homopolymer_runs=c.get("runs"), gc_range=c.get("gc"),
+                                                      undesired_motifs=None if c.get("motifs") else ["T"]))
         f = dsw.LocalBioFilter(observed_length=k, max_homopolymer_runs=c.get("runs"), gc_range=c.get("gc"), undesired_motifs=c.get("motifs"))
-        judge = lambda w: bool(f.valid(w))
+        ref_cfg = {"k": k, "runs": c.get("runs"), "gc": c.get("gc"), "motifs": c.get("motifs")}
+        judge = lambda w: filter_ref(ref_cfg, w, True)
     else:
         acc_set = set(p["accepted"])
 
@@ -504,6 +523,8 @@ def _graph_rows(name):
         return k, induced(1, [True, True, True, False])
     if name == "AC-1":
         return k, induced(1, [True, True, False, False])
+    if name == "chain-1":
+        return k, [[0, 1, -1, -1], [-1, -1, 2, -1], [0, -1, -1, -1], [-1, -1, -1, -1]]
     if name == "gc-balanced-2":
         return k, GC2
     if name == "no-homopolymer-2":
@@ -912,3 +933,80 @@ def k_bijection(p):
 
 
 KINDS.update({"bijection": k_bijection})
+
+
+GEN_SEQ = [(2, [0, 1, 1, 0, 1, 0, 0, 1, 1, 0, 0, 1, 0, 1, 1, 0], 1), (3, [1 if (v * 7 + 3) % 5 else 0 for v in range(64)], 1),
+           (2, [0, 1, 1, 0, 1, 0, 0, 1, 1, 0, 0, 1, 0, 1, 1, 0], 1), (1, [1, 1, 0, 1], 1), (3, [1 if (v * 7 + 3) % 5 else 0 for v in range(64)], 2),
+           (2, [1] * 16, 2), (1, [1, 1, 0, 1], 2), (2, [1, 1, 0, 0, 1, 1, 0, 0, 0, 0, 0, 0, 0, 0, 0, 0], 1)]
+
+
+def k_gen_seq(p):
+    """C03 history: generator calls with different observed lengths in one process."""
+    import dsw
+    for i, (k, mask, t) in enumerate(GEN_SEQ):
+        keep = gfp(k, mask, t)
+        r, ex = call(dsw.connect_coding_graph, k, np.array(mask), t)
+        exp = induced(k, keep) if any(keep) else None
+        got = r[1].tolist() if ex is None else (None if ex.startswith("ValueError") else ex)
+        if got != exp:
+            return True, "call %d of the sequence (k=%d, t=%d) differs from the largest closed sub-graph (%s)" % (i, k, t, ex)
+    return False, "sequence ok"
+
+
+KINDS.update({"gen_seq": k_gen_seq})
+
+
+def k_coding_edit(p):
+    """C01 history: round trip, in-place thinning of the shared graph object, round trip again."""
+    import dsw
+    acc = np.array(p["acc"], dtype=int)
+    bits = np.array(p["bits"], dtype=int)
+    start, fast = int(p["start"]), bool(p.get("fast"))
+    for stage in (0, 1):
+        if stage == 1:
+            for v in range(len(acc)):
+                lv = [j for j in range(4) if acc[v][j] >= 0]
+                if len(lv) >= 2:
+                    acc[v, lv[-1]] = -1
+                    break
+        s, ex = call(dsw.encode, bits, acc, start, is_faster=fast)
+        if ex is not None:
+            if "out-degree" in ex or "Not implementation" in ex:
+                return False, "precondition false at stage %d" % stage
+            return True, "stage %d: encode raised %s" % (stage, ex)
+        d, ex = call(dsw.decode, s, len(bits), acc, start, is_faster=fast)
+        if ex is not None or [int(x) for x in d] != [int(x) for x in bits]:
+            return True, "stage %d (%s the in-place edit): decode(encode(m)) gives %s (%s) for m = %s, strand %r" % (stage, "after" if stage else "before", None if d is None else [int(x) for x in d], ex, bits.tolist(), s)
+    return False, "both round trips ok"
+
+
+KINDS.update({"coding_edit": k_coding_edit})
+
+
+FIND_HISTORY = [dict(runs=1, gc=None, motifs=None), dict(runs=None, gc=[0.5, 0.5], motifs=None), dict(runs=None, gc=None, motifs=["AC"]), dict(runs=1, gc=None, motifs=["G"]),
+                dict(runs=None, gc=[0.0, 0.5], motifs=None), dict(runs=None, gc=None, motifs=["T"])]
+
+
+def k_find_history(p):
+    import dsw
+    k = int(p["k"])
+    N = 4 ** k
+    for i, c in enumerate(FIND_HISTORY):
+        f = dsw.LocalBioFilter(observed_length=k, max_homopolymer_runs=c["runs"], gc_range=c["gc"], undesired_motifs=c["motifs"])
+        exp = [filter_ref(dict(c, k=k), kmer(v, k), True) for v in range(N)]
+        r, ex = call(dsw.find_vertices, k, f)
+        got = [bool(x) for x in r] if ex is None else [False] * N
+        del f
+        if got != exp:
+            return True, "call %d of the history: mask does not mirror the filter passed in this call (config %s)" % (i, c)
+    f = dsw.LocalBioFilter(observed_length=k, undesired_motifs=["A"])
+    dsw.find_vertices(k, f)
+    f.undesired_motifs = ["C"]
+    exp = [filter_ref(dict(k=k, runs=None, gc=None, motifs=["C"]), kmer(v, k), True) for v in range(N)]
+    got = [bool(x) for x in dsw.find_vertices(k, f)]
+    if got != exp:
+        return True, "re-configured filter object gets a stale mask"
+    return False, "history ok"
+
+
+KINDS.update({"find_history": k_find_history})
